@@ -30,6 +30,7 @@ import IgrisModel.C14.Access
 import IgrisModel.C14.Width
 import IgrisModel.C14.Lemmas3
 import IgrisModel.C14.LedgerX
+import IgrisModel.C14.Lemmas3b
 
 namespace Igris.C14
 open Igris.Proto
@@ -980,5 +981,228 @@ example : UAbs ⟨some [.obj (some 4)], 1⟩ [4] :=
     slot included) stay inside `data[N+1]` -/
 theorem ss_index_inside {N : Nat} {s : SStr} {es : List Byte} (h : SAbs N s es) {i : Nat} (hi : i ≤ N) :
     ∃ b, sGetAny s i = .ok b := sGetAny_inside h hi
+
+/-! ## round 3b: ONE history machine with both kinds of exception
+
+`stepT c m op b a`: `b` = element constructions of the call that still succeed
+(every member function that constructs, `Exc.lean`), `a` = element
+move-assignments that still succeed (`erase`'s `std::move` inside the array).
+A throwing assignment is now an OPERATION of the histories: whatever was thrown
+before, by whichever kind, the theorems below speak about everything after. -/
+
+/-- ONE operation with a throw point of either kind, from any represented state:
+    no fault, it throws exactly when the reference says, the state left
+    represents the reference result (a failed `erase`: `specEraseFail`; the rest:
+    `specStepX`) and the ledger balance is kept -/
+theorem st_step_refines {c : Cfg} {m : Mach} {sp : SpecRegs} (h : MInv c m sp) (op : Op) (b a : Nat) :
+    ∃ m' res, stepT c m op b a = .ok (m', res, (specStepT c sp op b a).2) ∧ MInv c m' (specStepT c sp op b a).1 :=
+  stepT_refines h op b a
+
+/-- EVERY history in which ANY operations throw at ANY of their element
+    constructions or element assignments: no fault, and the final state
+    represents the reference machine with the same failures -/
+theorem st_history_refines (c : Cfg) (ops : List (Op × Nat × Nat)) :
+    ∃ m, runT c ops Mach.init = .ok m ∧ MInv c m (specRunT c ops (fun _ => none)) :=
+  runT_refines ops _ _ (minv_init c)
+
+theorem st_no_fault (c : Cfg) (ops : List (Op × Nat × Nat)) (f : Fault) : runT c ops Mach.init ≠ .error f := by
+  obtain ⟨m, h, _⟩ := st_history_refines c ops
+  rw [h]; intro e; cases e
+
+/-- a history of `stepX` operations IS the history of `stepT` with the same
+    construction budgets and any assignment budget that covers every `erase`
+    (here: unbounded) — the two machines agree where they overlap -/
+theorem st_extends_sx (c : Cfg) (m : Mach) (op : Op) (b : Nat) (hop : ∀ r i j, op ≠ .erase r i j) (a : Nat) :
+    stepT c m op b a = stepX c m op b := by
+  cases op <;> first | rfl | exact absurd rfl (hop _ _ _)
+
+/-- THE BASIC EXCEPTION GUARANTEE with both kinds of throw: after every history
+    each object that exists has `size ≤ N`, a live object in every slot below
+    `size`, raw storage at and above it, and constructor calls − destructor calls
+    = the sum of the sizes -/
+theorem st_basic_guarantee (c : Cfg) (ops : List (Op × Nat × Nat)) :
+    ∃ m, runT c ops Mach.init = .ok m ∧
+      (∀ r v, m.regs r = some v → v.size ≤ c.N ∧ v.slots.length = c.N ∧
+        (∀ p, p < v.size → ∃ e, v.slots[p]? = some (.obj e)) ∧
+        (∀ p, v.size ≤ p → p < c.N → v.slots[p]? = some .raw)) ∧
+      m.nctor = m.ndtor + total (heldBy m) c.K := by
+  obtain ⟨m, h, hi⟩ := st_history_refines c ops
+  refine ⟨m, h, ?_, ?_⟩
+  · intro r v hv
+    have hr := hi.rel r
+    rw [hv] at hr
+    cases hs : specRunT c ops (fun _ => none) r with
+    | none => rw [hs] at hr; exact hr.elim
+    | some es =>
+      rw [hs] at hr
+      refine ⟨by rw [hr.size]; exact hr.le, hr.len, ?_, ?_⟩
+      · intro p hp; rw [hr.pt p]; exact slotAt_obj (by rw [← hr.size]; exact hp)
+      · intro p hp1 hp2; rw [hr.pt p]; exact slotAt_raw (by rw [← hr.size]; exact hp1) hp2
+  · rw [hi.bal]
+    congr 1
+    apply total_congr
+    intro r _
+    have hr := hi.rel r
+    cases hm : m.regs r with
+    | none =>
+      have := (rel_none hr).mp hm
+      simp [szOf, heldBy, hm, this]
+    | some v =>
+      rw [hm] at hr
+      cases hs : specRunT c ops (fun _ => none) r with
+      | none => rw [hs] at hr; exact hr.elim
+      | some es => rw [hs] at hr; simp [szOf, heldBy, hm, hs, hr.size]
+
+/-- any history with throws of both kinds followed by the destruction of all
+    objects: constructor calls = destructor calls, no object left -/
+theorem st_lifetime_once (c : Cfg) (ops : List (Op × Nat × Nat)) :
+    ∃ m, runT c (ops ++ [(.finish, 0, 0)]) Mach.init = .ok m ∧ m.nctor = m.ndtor ∧ ∀ r, m.regs r = none := by
+  obtain ⟨m, h, hi⟩ := st_history_refines c (ops ++ [(.finish, 0, 0)])
+  have e : specRunT c (ops ++ [(.finish, 0, 0)]) (fun _ => none) = fun _ => none := by
+    rw [specRunT_append]; rfl
+  rw [e] at hi
+  refine ⟨m, h, by simpa [total_zero] using hi.bal, fun r => ?_⟩
+  have := hi.rel r
+  cases hm : m.regs r with
+  | none => rfl
+  | some v => rw [hm] at this; exact this.elim
+
+/-- the complete event sequence of EVERY history with throws of both kinds (the
+    events of a failed `erase` included: the moves and assignments it made before
+    the exception) passes the ledger replay and ends with exactly the occupied
+    slots of the final state -/
+theorem st_trace_passes_ledger (c : Cfg) (ops : List (Op × Nat × Nat)) :
+    ∃ m evs, runEvT c ops Mach.init = .ok (m, evs) ∧ runT c ops Mach.init = .ok m ∧
+      replayG evs (fun _ _ => false) = some (occR m.regs) := by
+  obtain ⟨m, evs, h1, h0, _, h3⟩ := runEvT_replays ops _ _ (minv_init c)
+  rw [occR_init] at h3
+  exact ⟨m, evs, h1, h0, h3⟩
+
+/-- EVERY ELEMENT CONSTRUCTED IS DESTROYED EXACTLY ONCE, whatever throws
+    (constructors or assignments): any such history + `finish` replays from
+    "nothing live" to "nothing live" -/
+theorem st_every_element_destroyed_exactly_once (c : Cfg) (ops : List (Op × Nat × Nat)) :
+    ∃ m evs, runEvT c (ops ++ [(.finish, 0, 0)]) Mach.init = .ok (m, evs) ∧
+      replayG evs (fun _ _ => false) = some (fun _ _ => false) := by
+  obtain ⟨m, evs, h1, _, h2, h3⟩ := runEvT_replays (c := c) (ops ++ [(.finish, 0, 0)]) _ _ (minv_init c)
+  have e : specRunT c (ops ++ [(.finish, 0, 0)]) (fun _ => none) = fun _ => none := by
+    rw [specRunT_append]; rfl
+  rw [e] at h2
+  have hn : occR m.regs = fun _ _ => false := by
+    funext r
+    have := h2.rel r
+    cases hm : m.regs r with
+    | none => simp [occR, hm]
+    | some v => rw [hm] at this; exact this.elim
+  rw [occR_init, hn] at h3
+  exact ⟨m, evs, h1, h3⟩
+
+/-- a copy constructor that throws, then an `erase` whose second assignment throws, then a plain erase:
+    1 2 3 → (throw) 1 2 3 → erase [0,1) with a = 1: [2, ~, 3] → erase [1,2): [2, 3] -/
+example : (match runT ⟨3, 2, false, true⟩ [(.new 0, 9, 9), (.push 0 1, 9, 9), (.push 0 2, 9, 9), (.push 0 3, 9, 9),
+      (.copy 1 0, 1, 9), (.erase 0 0 1, 9, 1), (.erase 0 1 2, 9, 9)] Mach.init with
+    | .ok m => decide ((m.regs 0).map (·.contents) = some [some 2, some 3]) && (m.regs 1).isNone
+    | _ => false) = true := by decide
+
+/-! ### the `w`-bit machine with throws -/
+
+/-- ONE operation with throw points: with `N < 2^w` the `w`-bit machine IS `stepT` -/
+theorem stw_step_exact {w : Nat} {c : Cfg} {m : Mach} {sp : SpecRegs} (h : MInv c m sp) (hN : c.N < 2 ^ w)
+    (op : Op) (b a : Nat) : stepTW w c m op b a = stepT c m op b a := stepTW_eq h hN op b a
+
+/-- EVERY history with throws of both kinds: for `N < 2^w` the run with the `w`-bit
+    counter is the run of the natural-number machine, hence no fault, the basic
+    guarantee, the reference sequences with failures: `st_*` hold verbatim for
+    `runTW w` (this is the machine the driver runs for `thr` / `thra`) -/
+theorem stw_history_transfers (w : Nat) (c : Cfg) (hN : c.N < 2 ^ w) (ops : List (Op × Nat × Nat)) :
+    runTW w c ops Mach.init = runT c ops Mach.init ∧
+    ∃ m, runTW w c ops Mach.init = .ok m ∧ MInv c m (specRunT c ops (fun _ => none)) := by
+  have e := runTW_eq hN ops _ _ (minv_init c)
+  obtain ⟨m, h1, h2⟩ := st_history_refines c ops
+  exact ⟨e, m, by rw [e]; exact h1, h2⟩
+
+/-- and for `N = 2^w` it is not (w = 2, N = 4): the fourth element wraps the counter to 0; a `push_back` that
+    throws leaves that state alone and the next one constructs over slot 0 — the natural-number machine keeps
+    4 elements and drops both; a `resize(4)` whose fourth construction throws is still fine (the counter reads 3) -/
+theorem stw_witness :
+    isFault .ctorOverLive (runTW 2 ⟨4, 1, false, true⟩ [(.new 0, 9, 9), (.resize 0 3, 9, 9), (.push 0 7, 9, 9),
+      (.push 0 5, 0, 9), (.push 0 5, 9, 9)] Mach.init) = true ∧
+    (match runTW 2 ⟨4, 1, false, true⟩ [(.new 0, 9, 9), (.resize 0 4, 3, 9)] Mach.init with
+      | .ok m => (m.regs 0).map (·.size) | _ => none) = some 3 ∧
+    (match runT ⟨4, 1, false, true⟩ [(.new 0, 9, 9), (.resize 0 3, 9, 9), (.push 0 7, 9, 9),
+      (.push 0 5, 0, 9), (.push 0 5, 9, 9)] Mach.init with
+      | .ok m => (m.regs 0).map (·.size) | _ => none) = some 4 := by decide
+
+/-! ### element destructors that throw: the contract
+
+The containers call `~T()` in `clear`, `resize`, `erase`, both assignments and
+their own destructor, never inside a handler.  An element type whose destructor
+throws is outside the contract: -/
+
+/-- when no destructor throws, the loop with a throw point is the loop of the model -/
+theorem dtor_nothrow_is_plain (v : SVec) (d : Nat) (h : v.size ≤ d) :
+    clearD v d = (clear v).map (fun q => (q.1, q.2, false)) := clearD_nothrow v d h
+
+/-- ANY throwing element destructor inside `clear()` — any represented state, any
+    position `d` — leaves `d + 1` dead elements below an unchanged `size()`: no
+    reference sequence describes the container any more and its own destructor
+    then destroys raw storage.  (Hence the requirement; the real program does
+    not get there: `~T()` is `noexcept` unless declared otherwise, the harness
+    checks `is_nothrow_destructible` of every instantiation, and the exception
+    ends in `std::terminate`.) -/
+theorem dtor_throw_breaks_invariant {N : Nat} {v : SVec} {es : List Elem} (h : Abs N v es) {d : Nat}
+    (hd : d < es.length) :
+    ∃ v' tr, clearD v d = .ok (v', tr, true) ∧ v'.size = es.length ∧ nD tr = d + 1 ∧
+      (∀ p, p ≤ d → v'.slots[p]? = some .raw) ∧ (∀ es', ¬ Abs N v' es') ∧
+      destructor v' = .error .dtorRaw := clearD_throw_spec h hd
+
+example : Abs 2 ⟨[.obj (some 1), .obj (some 2)], 2⟩ [some 1, some 2] :=
+  ⟨rfl, rfl, by decide, by intro p; match p with | 0 => rfl | 1 => rfl | (p + 2) => simp [slotAt]⟩
+
+/-! ### unbounded_array: element constructors / the allocator throw -/
+
+/-- `create_buffer(n)` (hence `resize(n)` and `unbounded_array(n)`) with the throw at
+    ANY construction or a failing allocation: no fault; it throws exactly when the
+    allocation fails or `b < n`; then the array is EMPTY (`nullptr`, size 0) and
+    every element it had constructed is destroyed again (constructor calls =
+    destructor calls); otherwise the block holds `n` value-initialised elements -/
+theorem ua_create_throw (n b : Nat) (al : Bool) :
+    ∃ a tr, uCreateX n b al = .ok (a, tr, !(al && decide (n ≤ b))) ∧
+      UAbs a (if al = true ∧ n ≤ b then List.replicate n 0 else []) ∧
+      nC tr = nD tr + (if al = true ∧ n ≤ b then n else 0) ∧ nC tr = (if al then min n b else 0) :=
+  uCreateX_spec n b al
+
+/-- the code as it was: `m_size = size` before the loop and no clean-up — `size() == 2` over a block whose
+    second slot is raw storage, destroyed by the destructor -/
+theorem ua_create_throw_orig_witness :
+    (match uCreateXOrig 2 1 with
+      | .ok (a, _, t) => decide (a = ⟨some [.obj (some 0), .raw], 2⟩) && t
+      | _ => false) = true ∧
+    (match uInvalidate ⟨some [.obj (some 0), .raw], 2⟩ with
+      | .error .dtorRaw => true
+      | _ => false) = true := uCreateXOrig_witness
+
+/-- `unbounded_array(n)` with the throw at any construction / a failing allocation: no fault; either the object
+    exists and holds `n` value-initialised elements, or there is NO object and every element the call had
+    constructed is destroyed again (nothing leaks) -/
+theorem ua_ctor_throw (n b : Nat) (al : Bool) :
+    ∃ x tr, uCtorX n b al = .ok (x, tr, !(al && decide (n ≤ b))) ∧
+      (if al = true ∧ n ≤ b then ∃ a, x = some a ∧ UAbs a (List.replicate n 0) ∧ nC tr = nD tr + n
+       else x = none ∧ nC tr = nD tr) := by
+  obtain ⟨a, tr, h1, h2, h3, _⟩ := uCreateX_spec n b al
+  by_cases hc : al = true ∧ n ≤ b
+  · have ht : (!(al && decide (n ≤ b))) = false := by simp [hc.1, hc.2]
+    rw [ht] at h1
+    rw [if_pos hc] at h2 h3
+    refine ⟨some a, tr, by simp [uCtorX, h1, ht, bind, Except.bind, pure, Except.pure], ?_⟩
+    rw [if_pos hc]
+    exact ⟨a, rfl, h2, h3⟩
+  · have ht : (!(al && decide (n ≤ b))) = true := by
+      cases al <;> simp_all
+    rw [ht] at h1
+    rw [if_neg hc] at h3
+    refine ⟨none, tr, by simp [uCtorX, h1, ht, bind, Except.bind, pure, Except.pure], ?_⟩
+    rw [if_neg hc]
+    exact ⟨rfl, by omega⟩
 
 end Igris.C14
